@@ -217,7 +217,25 @@ fn inject_conflicts(w: &mut World, h: usize, seen: &mut usize, budget: &mut u32)
                     RData::Txt(_) => RData::Txt(vec![1, b'z']),
                     other => other.clone(),
                 };
-                r.answers.push(wire::rec(&a.name, a.rtype, a.class, 120, rdata));
+                r.answers.push(wire::rec(&a.name, a.rtype, a.class, 120, rdata.clone()));
+                // the daemon keeps its own names in escaped text but reads names off the wire without escapes: a first label
+                // that literally holds the escaped text ("v1\.2") is what reads back as the name it is probing, and is what
+                // makes the renaming code run for names with dots and backslashes
+                let first = &a.name[0];
+                if first.iter().any(|b| *b == b'.' || *b == b'\\') {
+                    let mut esc: Vec<u8> = Vec::new();
+                    for b in first {
+                        if *b == b'.' || *b == b'\\' {
+                            esc.push(b'\\');
+                        }
+                        esc.push(*b);
+                    }
+                    if esc.len() <= 63 {
+                        let mut n = a.name.clone();
+                        n[0] = esc;
+                        r.answers.push(wire::rec(&n, a.rtype, a.class, 120, rdata));
+                    }
+                }
             }
             if let Some(i) = tx.out_if {
                 *budget -= 1;
